@@ -25,17 +25,18 @@ def _alarm(signum, frame):
 
 
 def guarded(fn, arg, seconds=10):
-    """run fn(arg) with a wall-clock guard (pure Python loops are
-    interruptible by SIGALRM)"""
-    old = signal.signal(signal.SIGALRM, _alarm)
-    signal.setitimer(signal.ITIMER_REAL, seconds)
+    """run fn(arg) with a CPU-time guard of this process (pure Python loops
+    are interruptible by the signal); CPU time, not wall-clock time, so that
+    a loaded machine cannot turn a slow case into a verdict"""
+    old = signal.signal(signal.SIGVTALRM, _alarm)
+    signal.setitimer(signal.ITIMER_VIRTUAL, seconds)
     try:
         return fn(arg)
     except CaseTimeout:
-        return ('timeout', 'no result within %ss' % seconds)
+        return ('timeout', 'no result within %ss of CPU time' % seconds)
     finally:
-        signal.setitimer(signal.ITIMER_REAL, 0)
-        signal.signal(signal.SIGALRM, old)
+        signal.setitimer(signal.ITIMER_VIRTUAL, 0)
+        signal.signal(signal.SIGVTALRM, old)
 
 
 def _run_range(rng):
